@@ -6,7 +6,7 @@ D=$(mktemp -d /tmp/kopf-mut-XXXXXX)
 rsync -a --exclude .git --exclude '*.egg-info' --exclude docs --exclude tests /repo/ "$D/"
 ( cd "$D" && patch -p1 -s < "$PATCH" ) || { echo "PATCH FAILED"; rm -rf "$D"; exit 3; }
 OUT=$(mktemp -d /tmp/kopf-mut-out-XXXXXX)
-VERIF_REPO="$D" VERIF_OUT="$OUT" timeout 900 /verif/check "$PROP" --budget "$BUDGET" ${EXTRA:-} 2>&1 | grep -v "conda" | tail -${TAIL:-12}
+VERIF_REPO="$D" VERIF_OUT="$OUT" timeout ${TMO:-900} /verif/check "$PROP" --budget "$BUDGET" ${EXTRA:-} 2>&1 | grep -v "conda" | tail -${TAIL:-12}
 RC=${PIPESTATUS[0]}
 # replay determinism check on the first replay, if any
 R=$(ls "$OUT"/replays/*.json 2>/dev/null | head -1)
